@@ -12,6 +12,7 @@ TRUSTED_BASE_COMMON = [
 ]
 
 FSM_CORR = ["corr/FsmCorr.v"]
+NODE_CORR = ["corr/FsmCorr.v", "corr/CacheCorr.v", "corr/NodeCorr.v"]
 
 
 def P(props, suites, technique, level_text, level_note, corr=None, level="proof", assumptions=None, explanation="", trusted=None):
@@ -24,9 +25,9 @@ GO_SM = "go-statemachine semantics (one event planned at a time, handler started
 PROPS = {
     "C03": {
         "props": "props/C03.v",
-        "corr": FSM_CORR,
+        "corr": NODE_CORR,
         "level": "proof",
-        "suites": [{"name": "fsmtable"}, {"name": "fsmhist"}],
+        "suites": [{"name": "fsmtable"}, {"name": "fsmhist"}, {"name": "nodeapi"}],
         "trusted_base": [],
         "assumptions": [
             "histories are sequences of FSM events applied in plan order (go-statemachine processes one event at a time)",
@@ -38,40 +39,65 @@ PROPS = {
         "explanation": "theorems over the transition table regenerated from channels_fsm.go; the table and go-statemachine "
                        "semantics are tied to the running code by an exhaustive (status x record variant x event) differential",
     },
-    "C02": P("props/C02.v", ["fsmtable", "fsmhist"],
+    "C04": P("props/C04.v", ["nodevalidate", "nodeflow"],
+        "Coq theorems over the manager's handler programs (free monad over 13 instructions): acceptRequest succeeds only after the registered validator answered accepted without error, otherwise the channel set is unchanged; reply accepted iff validated; enumerated validator-outcome grid on the real manager with direct monitors",
+        "Machine-checked proof about the handler programs of Node.v for every state, message and oracle answer; Node.v is tied to impl/*.go by the node correspondence (exhaustive validator-outcome grid x request kind x path, UpdateValidationStatus in 9 situations) which also runs every call under recover.",
+        "The handlers are modelled by hand (correspondence = differential testing, exhaustive over the stated grid); restart / revalidation paths are covered by correspondence and monitors, the theorems are about new requests; 'does not crash' = no call panicked in any suite (two panics were found and fixed, see KNOWN_FINDINGS.txt)",
+        corr=NODE_CORR),
+    "C05": P("props/C05.v", ["nodepeers", "noderestart", "nodeflow"],
+        "Coq theorem: a step whose input names channel k (built from the authenticated sender) leaves every other channel's record and caches unchanged, for every handler program (key discipline enforced by the interpreter run_keyed and proved generically); exhaustive sender x message kind x id product and restart-request mutations on the real manager",
+        "Machine-checked frame theorem for every input, sender and oracle answer; strangers and role-confused senders cannot name an existing channel (key built from the authenticated peer). The honour conditions of restart requests are enumerated (every single-field mutation) against the real code with direct monitors.",
+        "Authenticated remote peer is libp2p's / graphsync's contract (assumed); the key discipline is part of the model's step function and is therefore itself validated by the correspondence (a handler that touched another key would disagree with the model)",
+        corr=NODE_CORR),
+    "C10": P("props/C10.v", ["noderestart", "nodeflow"],
+        "Coq theorems lifted to every node history: identity (id, peers, base cid, selector), opening voucher and log prefixes, block indexes are preserved by every input incl. all restart paths and process restarts; re-issued request shape; enumerated restart product on the real manager with direct monitors (progress unchanged, no channel created, original request re-issued, revalidation before asking)",
+        "Machine-checked invariants over all histories of the node model plus an enumerated product (4 roles x statuses x progress / second voucher x process restart x every restart path) on the real code.",
+        "Transport-level clauses (skip count = received blocks, previous request cancelled first, queued messages delivered once) belong to the transport suite; byte totals under restart are covered by C07's restart theorem and the monitors",
+        corr=NODE_CORR),
+    "C18": P("props/C18.v", ["nodepeers", "nodeflow"],
+        "Coq theorems: ids issued by atomic increments are distinct and strictly increasing for any number of calls; a later manager starts above an earlier one under the stated clock hypothesis; creating an existing id fails and frames; monitors on the real manager (ids increasing, duplicate new request refused and framing)",
+        "Machine-checked proof on the counter model and the node model; the Go primitive's atomicity (atomic.AddUint64) is assumed and stress-validated.",
+        "clock non-decreasing and fewer ids issued than nanoseconds elapsed (explicit hypothesis of the theorem)",
+        corr=NODE_CORR),
+    "C02": P("props/C02.v", ["fsmtable", "fsmhist", "nodeterminal", "nodeflow"],
         "Coq theorem over every schedule of the go-statemachine model (terminal record frozen, every later event dropped) on the finality list regenerated from channels_fsm.go; exhaustive terminal-status differential and direct frozen-record monitor on the real channels.Channels",
         "Machine-checked proof for all schedules (sends, plans, handler completions, reopen) that a record in Completed/Failed/Cancelled never changes and produces no announcement, write, cleanup or un-protect. Tied to the code by the regenerated finality list and by running every event against every seeded terminal record.",
-        GO_SM + "; manager-level handlers (restart no-op, refused restart requests) are covered by the node suites",
+        GO_SM + "; the manager handlers are the hand-written Node.v programs, tied to impl/*.go by the node correspondence suites (nodeterminal is the exhaustive terminal product)",
+        corr=NODE_CORR,
         assumptions=["a reopened datastore yields a fresh machine on the stored record (m_init)"]),
     "C07": P("props/C07.v", ["fsmreports"],
         "Coq theorems (invariant by induction over report histories with restarts; closed payload formula) over Caches.fire and the generated FSM actions; correspondence of the real Channels.DataQueued/DataSent/DataReceived incl. cache contents against the model; direct totals monitors",
         "Machine-checked proof for every direction, block function and well-shaped history with process restarts anywhere: byte total = summed size of unique blocks at distinct reported positions (mod 2^64), index = highest position; replays and non-unique blocks never count; for arbitrary report lists total = sum of reports that advanced the lazily seeded mark.",
         "Sequential reporters (the concurrent CAS clause is validated by the race-stress suite, not proved); atomicity of Go's CompareAndSwapInt64/AddUint64 assumed; crash points are between reports (C07's quantifier)",
         corr=["corr/CacheCorr.v"]),
-    "C08": P("props/C08.v", ["fsmreports"],
+    "C08": P("props/C08.v", ["fsmreports", "nodeapi"],
         "Coq theorems over Caches.fire/set_limit (pause iff the advancing report brings the limited total to or past a non-zero limit; cache and store agree; restart re-seeds) ; enumerated limit boundaries (every prefix sum -1/0/+1, restart between reports) against the real Channels",
         "Machine-checked proof of the pause rule at cache/FSM level for all reports and limits, with the cache-consistency invariant preserved by reports, SetDataLimit and restarts. Manager-level resume/reject rules are in the node suites.",
-        "Sequential reporters; 'no further payload while paused' is graphsync's contract (assumed, see C01)",
-        corr=["corr/CacheCorr.v"]),
-    "C09": P("props/C09.v", ["fsmcleanup", "fsmtable", "fsmhist"],
+        "Sequential reporters; 'no further payload while paused' is graphsync's contract (assumed, see C01); the manager's resume / stay-paused / reject rules are in Node.v (update_validation) and are tied to the code by the enumerated limit rounds of nodeapi with a direct resume-rule monitor",
+        corr=NODE_CORR),
+    "C09": P("props/C09.v", ["fsmcleanup", "fsmtable", "nodeapi"],
         "Coq theorems over every schedule of the go-statemachine model: cleanup runs = handler starts, handler starts only on entering a cleanup status or CompleteCleanupOnRestart, terminal only via cleanup, endings settle; regenerated entry function and table; exhaustive gated-handler product on the real channels.Channels",
         "Machine-checked proof for all schedules at machine level; the cleanup entry function body and the table are regenerated from channels_fsm.go each run; the real FSM is driven through every (status x ending x event queued while the cleanup handler is held) case.",
-        GO_SM + "; 'settles' assumes the handler goroutine is scheduled; closing via the manager/transport is covered by node/transport suites"),
-    "C11": P("props/C11.v", ["fsmpause", "fsmtable"],
+        GO_SM + "; 'settles' assumes the handler goroutine is scheduled; closing through the manager is covered by nodeapi (close monitors), closing at the transport by the transport suite",
+        corr=NODE_CORR),
+    "C11": P("props/C11.v", ["fsmpause", "nodeapi"],
         "Coq theorems over the generated actions (only a party's own pause/resume events write its flag; flags follow actions where valid; invalid requests leave the record unchanged; derived views); exhaustive pause/resume interleavings on the real channels.Channels",
         "Machine-checked proof at FSM level for every record and event, with all pause/resume interleavings up to the tier's length enumerated against the real code in every status.",
-        "manager-level effects (transport pause/resume, announcement messages, stay-paused rule) are covered by the node suites"),
-    "C17": P("props/C17.v", ["fsmhist", "fsmcleanup"],
+        "manager-level effects (transport pause/resume, announcement messages, stay-paused rule) are in Node.v and tied to the code by nodeapi with direct monitors",
+        corr=NODE_CORR),
+    "C17": P("props/C17.v", ["fsmhist", "fsmcleanup", "nodeflow"],
         "Coq theorem over every schedule: announcements = applied events in plan order, snapshots chain by Fsm.apply, written records = announced records; correspondence compares every notification (event, full view) of the real notifier with the model",
         "Machine-checked proof at machine level; subscriber windows (subscribe/unsubscribe, per-transfer filters) are covered by the node suite.",
-        GO_SM + "; the notifier FIFO goroutine of go-statemachine is assumed to preserve order (validated)"),
-    "C19": P("props/C19.v", ["fsmtable", "fsmhist"],
+        GO_SM + "; the notifier FIFO goroutine of go-statemachine is assumed to preserve order (validated)",
+        corr=NODE_CORR),
+    "C19": P("props/C19.v", ["fsmtable", "fsmhist", "nodeapi"],
         "Coq theorems: accessor views of well-formed records agree (pull, channel id, other peer), well-formedness preserved by every event, voucher logs append-only with exactly the NewVoucher/NewVoucherResult entries, 'last' accessors; every state the harness sees goes through all real accessors under recover",
         "Machine-checked proof at FSM level plus a totality monitor on the implementation: every accessor of every observed state is called under recover and compared with the model view.",
-        "node-level recording rules (voucher recorded only after a successful send, etc.) are covered by the node suites"),
+        "node-level recording rules (voucher recorded only after a successful send, etc.) are in Node.v, tied by nodeapi with direct monitors",
+        corr=NODE_CORR),
 }
 
 NOT_APPLICABLE = {}
 
 # commits in /repo that add verif-tagged hook files
-HOOK_COMMITS = ["8ac3d66"]
+HOOK_COMMITS = ["8ac3d66", "16a421e"]
